@@ -18,6 +18,7 @@ import (
 	"strconv"
 	"sync"
 	"testing"
+	"time"
 )
 
 func vfEnv(k, def string) string {
@@ -67,7 +68,42 @@ func vfOpenTrace(t testing.TB, envKey string) *vfTrace {
 	if err != nil {
 		t.Fatalf("cannot create trace: %v", err)
 	}
-	return &vfTrace{f: f, w: bufio.NewWriterSize(f, 1<<20)}
+	tr := &vfTrace{f: f, w: bufio.NewWriterSize(f, 1<<20)}
+	go tr.watchdog(time.Duration(vfEnvInt("VERIF_HANG_S", 180)) * time.Second)
+	return tr
+}
+
+// watchdog: a driver that has written nothing for a long time is hanging - in a call into the code under test that
+// does not return (a lock that is never released, an endless loop) or in the harness.  It flushes the trace, prints
+// every goroutine's stack behind a marker and ends the process; the check decides from the stacks which of the two it is.
+func (tr *vfTrace) watchdog(idle time.Duration) {
+	if idle <= 0 {
+		return
+	}
+	last, since := -1, time.Now()
+	for {
+		time.Sleep(2 * time.Second)
+		tr.mu.Lock()
+		n := tr.n
+		tr.mu.Unlock()
+		if n != last {
+			last, since = n, time.Now()
+			continue
+		}
+		if time.Since(since) < idle {
+			continue
+		}
+		tr.mu.Lock()
+		tr.w.Flush()
+		tr.mu.Unlock()
+		// two samples a few seconds apart: a goroutine that sits in the same frame in both is not passing through
+		buf := make([]byte, 8<<20)
+		b1 := string(buf[:runtime.Stack(buf, true)])
+		time.Sleep(5 * time.Second)
+		b2 := string(buf[:runtime.Stack(buf, true)])
+		fmt.Printf("\nVF-HANG idle=%ds events=%d\n%s\nVF-HANG-SECOND-SAMPLE\n%s\nVF-HANG-END\n", int(time.Since(since).Seconds()), n, b1, b2)
+		os.Exit(7)
+	}
 }
 
 func (tr *vfTrace) Emit(v interface{}) {
@@ -151,6 +187,20 @@ func vfCatch(f func()) (panicked string) {
 	return ""
 }
 
+// vfWithin runs f on its own goroutine (panics of the code under test are caught there) and gives up after d: a call
+// that has not come back by then is reported as stuck (its goroutine is abandoned).  d is far beyond anything an
+// in-memory operation can need even on a loaded machine.
+func vfWithin(d time.Duration, f func()) (panicked string, stuck bool) {
+	done := make(chan string, 1)
+	go func() { done <- vfCatch(f) }()
+	select {
+	case pm := <-done:
+		return pm, false
+	case <-time.After(d):
+		return "", true
+	}
+}
+
 func vfPtr(p interface{}) string { return fmt.Sprintf("%p", p) }
 
 func vfSetHook(h func(ev string, kv ...interface{})) { vtHook = h }
@@ -194,9 +244,9 @@ type vfST struct {
 	port  int
 }
 
-func (s *vfST) Start(MessageHandler) error             { return nil }
-func (s *vfST) Send(string, int, *Message) error       { return nil }
-func (s *vfST) GetProtocol() string                    { return s.proto }
-func (s *vfST) GetAddress() string                     { return s.addr }
-func (s *vfST) GetPort() int                           { return s.port }
-func (s *vfST) IsExit() bool                           { return false }
+func (s *vfST) Start(MessageHandler) error       { return nil }
+func (s *vfST) Send(string, int, *Message) error { return nil }
+func (s *vfST) GetProtocol() string              { return s.proto }
+func (s *vfST) GetAddress() string               { return s.addr }
+func (s *vfST) GetPort() int                     { return s.port }
+func (s *vfST) IsExit() bool                     { return false }
